@@ -307,7 +307,13 @@ namespace pika::mpi::experimental {
         bool poll_request(MPI_Request req)
         {
             int flag;
+#if defined(PIKA_VERIF_HOOKS)
+            auto const verif_req_ = (std::uint64_t) (std::uintptr_t) (req);
+#endif
             MPI_Test(&req, &flag, MPI_STATUS_IGNORE);
+#if defined(PIKA_VERIF_HOOKS)
+            if (flag) PIKA_VERIF_POST("mpi.tested", nullptr, verif_req_, 1);
+#endif
             if (flag) { PIKA_DETAIL_DP(mpi_debug<5>, debug(str<>("poll MPI_Test ok"), req)); }
             return flag;
         }
